@@ -139,6 +139,7 @@ var richKeys = []string{
 	"plain", "dir/sub/obj.txt", "sp ace+plus&amp=eq", "ünï/cödé/ключ", "q?mark#hash%25x", "semi;colon,comma'quote\"dq",
 	"~tilde!bang*(paren)", "UPPER/lower/MiXed", "日本語/キー", "a.b-c_d/e.f", "trailing.dot./x", "@at$dollar^caret`tick",
 	"[br]{ace}|pipe<lt>gt", "tab\tchar", "very/deeply/nested/key/with/many/segments/indeed/yes",
+	"reports/2024", "reports_2024", "reports-2024",
 }
 
 // GenPlan generates the plan for one run of a property.
@@ -532,6 +533,7 @@ func (g *G) genC03(p *Plan, paging bool) {
 				op.K = "walk"
 				op.HasMk = true
 				op.Marker = g.markerNear(keys)
+				op.Sticky = g.chance(0.5)
 			default:
 				op.HasMk = true
 				op.Marker = g.markerNear(keys)
